@@ -1,6 +1,6 @@
 import CwMt.Proofs.EngineB
 import CwMt.Proofs.EngineTx
-import CwMt.Proofs.Rules
+import CwMt.Proofs.RulesVerify
 /-
   C13 — Malformed contract responses are rejected before any effect is kept.
 -/
